@@ -155,7 +155,7 @@ m = {
    "guard": "verif",
    "enable": "go build -tags verif (the harness module replaces the dependency with /repo)",
    "baseline_off_cmd": "cd /repo && go build ./... && go test -vet=off -count=1 -timeout 25m ./...",
-   "source_commits": ["9db60bf", "9f9cd1b", "d004980"],
+   "source_commits": ["9db60bf", "9f9cd1b", "d004980", "49e73a7"],
    "add_only": True,
  },
  "engines": [
